@@ -162,7 +162,8 @@ func (g *c04Gen) scalarValue(s string, fault bool) c04Val {
 		case 1:
 			return mkBool(r.Bool())
 		case 2:
-			return mkFloat(Pick(r, []float64{1.5, 3.7, 1e300, 2147483648.5}))
+			// fractional, and integral but outside 32 bits (what encoding/json hands over for a large JSON number)
+			return mkFloat(Pick(r, []float64{1.5, 3.7, 1e300, 2147483648.5, 2147483648, -2147483649, 4294967297, 4294967296, 9007199254740992, 1e18}))
 		case 3:
 			return mkInt(Pick(r, []int64{4294967297, 2147483648, -2147483649, 1 << 40, math.MaxInt64}))
 		case 4:
